@@ -251,6 +251,7 @@ theorem step_inv {W : World} {σ : State} (hI : Inv W σ) (op : Op) : Inv W (ste
       · exact hI
       · exact (evalDev_inv hI _ _ _ _ _).1
   case stepTo t a => split <;> first | exact hI | exact (evalDev_inv hI _ _ _ _ _).1
+  case uproject t a => split <;> exact hI
   case partialEval t fd fh np nm a => split <;> first | exact hI | exact (evalWith_inv hI _ _ _ _ _ _ _).1
   case cacheClear => exact evict [] (by intro e he; simp at he)
   case evict i => exact evict _ (fun e he => List.mem_of_mem_eraseIdx he)
@@ -283,12 +284,13 @@ theorem step_out {W : World} {σ : State} (hI : Inv W σ) (op : Op) : (step W σ
     split
     · rfl
     · split
-      · simp only [State.cells, hI.2.caller]
+      · simp only [State.cells, hI.2.caller, hI.2.dicts]
       · rw [(evalDev_inv hI _ _ _ _ _).2, (evalDev_inv h0 _ _ _ _ _).2]
   case stepTo t a =>
     split
     · rfl
     · rw [(evalDev_inv hI _ _ _ _ _).2, (evalDev_inv h0 _ _ _ _ _).2]
+  case uproject t a => split <;> simp only [hI.2.dicts, State.cells, hI.2.caller]
   case partialEval t fd fh np nm a =>
     split
     · rfl
